@@ -86,7 +86,8 @@ CHECKS = {
             'join of every mapping (live PDFField objects and FDF entries captured at a stand-in pdftk) with the field tree parsed from the bundled templates',
             'All 1665 mappings: the target exists in the template, kinds agree, check-box export values for every value of the driving line are template export values, '
             'length limits agree, no field is mapped twice, exclusive groups have at most one box on for every value of the driving line, every fileable form has a template '
-            'and mappings, every mapped line exists, and where the template\'s accessibility text (or NC field-name suffix) carries a line label in reading order the mapped line is that line.',
+            'and mappings, every mapped line exists, and where the template\'s accessibility text (or NC field-name suffix) carries a line label in reading order the mapped line is that line. Fills of real solved '
+            'returns check groups whose boxes are driven by several lines (NC filing status, yes/no pairs).',
             'Trusts hv/pdfspec.py and a three-entry alias table; labels out of the template\'s own reading order are ignored and counted.',
             'DESIGN.md section 4, C18'),
     'C19': ('exploration',
@@ -100,7 +101,8 @@ CHECKS = {
             'fault injection into the real CLI session at every prompt index, followed by a file-state checker and a re-run',
             'For each explored interactive session (persona x initial file) and EVERY prompt index k: Ctrl-C at the prompt, end of input at the prompt, invalid answer then Ctrl-C; '
             'plus a line definition raising at sampled evaluation indices and an unsupported form being reached. After each faulted `solve --prompt-missing --writeback-input` the file '
-            'must parse, hold every value it held before and every answer given before the fault, and the re-run must not ask for any of them again.',
+            'must parse, hold every value it held before and every answer given before the fault, and the re-run must not ask for any of them again. A sample of fault points is repeated through the real child process '
+            'on a pseudo-terminal (real SIGINT / end of input). A prompt loop that keeps calling input() after input ended is reported by a logical bound.',
             'In-process CLI with builtins.input replaced; the answer being typed at the fault point is not required to persist.',
             'DESIGN.md section 4, C20'),
     'C01': ('exploration',
@@ -108,26 +110,28 @@ CHECKS = {
             'Every solve of the workload runs under boundary wrappers; the oracle recomputes from the event log the set of lines that signalled '
             'unimplemented, inputs still missing and demanded lines without a value, and compares with solve()\'s verdict and the three diagnostics; '
             'for generated form programs (random, a named corpus, and a bounded-exhaustive family x all present/answered/refused assignments) the '
-            'verdict and diagnostic sets must equal a denotational reference interpreter. Held = on the executions listed in evidence.',
+            'verdict and diagnostic sets must equal a denotational reference interpreter. Real returns (personas incl. purpose-built ones) are solved with refusal from random prompt indices, gate flips, '
+            'unsupported forms; a CLI layer compares the verdict line and the failure report printed by `habutax solve` with the trace of the same file (full, missing, flipped, missing+flipped inputs). Held = on the executions listed in evidence.',
             'Trusts the wrappers to see every read/store/not-implemented call and the reference interpreter as the intended semantics.',
             'DESIGN.md section 4, C01'),
     'C03': ('exploration',
             'runtime re-evaluation monitor: every stored line re-run through its own definition on the final stores, under permuted schedules',
             'After each traced solve (natural order and seeded permutations of the attempt order) every stored line is re-evaluated with the real '
-            'Field.value on accessors over the final input and value stores and must reproduce the stored value exactly; online, every read must '
-            'return the latest store and no key may change value.',
+            'Field.value on accessors over a fresh InputStore of the final configuration and the final value store, both on the stored typed values and on the values as the returned solution carries them '
+            '(to_string/from_string), and must reproduce them exactly; online, every read must return the latest store and no key may change value; a solve - change inputs - solve again history runs on the same store object.',
             'Assumes line definitions are pure; schedule permutation is by replacing habutax.solver.sort_keys.',
             'DESIGN.md section 4, C03'),
     'C04': ('exploration',
             'offline closure checker over READ_LINE events + reference demand closure of generated programs',
             'For each traced solve the demanded closure is rebuilt from the references the evaluated lines actually made; a successful solution and '
-            'solver.forms must equal it exactly, a partial one must stay inside it; generated programs are also compared with the reference closure.',
+            'solver.forms must equal it exactly, a partial one must stay inside it; generated programs are also compared with the reference closure; at the command line the solution written for a request '
+            '(incl. requests that do not lead to Form 1040) must equal the API closure of the same request.',
             'Trusts READ_LINE events inside attempts to be all references made.',
             'DESIGN.md section 4, C04'),
     'C05': ('exploration',
             'schedule perturbation + metamorphic comparison of canonical outcomes across variants',
             'Each case is solved under the natural order, K seeded permutations of the attempt order, permuted request order, permuted file layout, '
-            'all-in-file / all-at-prompt / split variants and line renamings; verdict, typed values, solution keys and diagnostic sets must coincide. '
+            'all-in-file / all-at-prompt / split / file-on-disk variants, line renamings and three PYTHONHASHSEED values (separate processes); verdict, typed values, solution keys and diagnostic sets must coincide. '
             'Evidence counts distinct attempt sequences actually produced.',
             'With a refusing prompt only solved/not-solved is compared (the questions asked legitimately depend on order).',
             'DESIGN.md section 4, C05'),
@@ -136,7 +140,8 @@ CHECKS = {
             'Solves of cyclic, self-referential, unknown-name and refusing-prompt programs (refusal from every prompt index k) run under a logical work '
             'ceiling; per-line evaluation bound, one prompt per input, and end-state conservation (no waiter left on a satisfied dependency) are checked. '
             'The real DependencyTracker is driven by random histories (length <= 40) and bounded-exhaustive ones (quick: length <= 5, thorough: length <= 7) '
-            'of add_unmet/meet/partial and complete drains and compared step by step with a sequential model.',
+            'of add_unmet/meet/partial and complete drains and compared step by step with a sequential model. Polls of has_met/has_unmet are counted as logical ticks (a main loop spinning without evaluating anything '
+            'hits the tick ceiling); command-line sessions in which the user goes away (EOF / Ctrl-C at question k) are bounded by calls of input() per question.',
             'Termination is decided as a logical step bound; watchdog expiry is inconclusive. Per-line bound = multiplicity x (1 + distinct waits) + 1.',
             'DESIGN.md section 4, C06'),
     'C12': ('exploration',
@@ -150,7 +155,8 @@ CHECKS = {
             'online checker of prompt events against preceding missing-read events + three-run histories (solve, write back, solve, prune)',
             'Each PROMPT must be preceded by a READ_INPUT(missing) of that input by the quoted lines, for an input not supplied and not asked before; '
             'without refusal the asked set must equal the reference set of read-and-absent inputs; run 2 on the written-back inputs must ask nothing '
-            'and give the identical solution; run 3 with never-read inputs deleted must give the identical outcome.',
+            'and give the identical solution; run 3 with never-read inputs deleted must give the identical outcome. The same history runs through the real CLI (write-back file, --solution), where the text of every '
+            'prompt is also compared with the waiting lines the solver passed to the prompt function.',
             'Answers stay inside ConfigParser\'s safe alphabet (INI artefacts are C14\'s).',
             'DESIGN.md section 4, C13'),
     'C07': ('exploration',
@@ -158,7 +164,8 @@ CHECKS = {
             'Every call of the real figure_tax() made by the workload is compared with a reference computed only from the '
             'statutory brackets and the IRS table layout. Quick: every table row at four points, every bracket edge and '
             'neighbours, 2000 log-uniform amounts to 1e12, all five statuses, three years. Thorough: every whole dollar in '
-            '[0,100000) x 5 statuses x 3 years (exhaustive) plus 100000 sampled amounts above per year. Held = on those calls.',
+            '[0,100000) x 5 statuses x 3 years (exhaustive) plus 500000 sampled amounts above per year. The same postcondition wraps the name figure_tax as bound in the Form 1040 and capital-gain '
+            'worksheet modules while real returns are solved. Held = on those calls.',
             'Trusts hv/statutory.py (transcribed Rev. Proc. brackets) and the half-up rounding rule of the IRS tables.',
             'DESIGN.md section 4, C07'),
 }
